@@ -46,6 +46,7 @@ type frInput struct {
 }
 
 type frCase struct {
+	ID    int       `json:"id"`
 	Files []frInput `json:"files"`
 	Path  []frStep  `json:"path"`
 }
@@ -89,7 +90,7 @@ func famFmtReader(mode string, args []string) error {
 			if err := json.Unmarshal(raw, &c); err != nil {
 				return fail("badcase", "%v", err)
 			}
-			return frReplay(&c, dir, n)
+			return frReplay(&c, dir, c.ID)
 		})
 	}
 	return fmt.Errorf("fmtreader: unknown mode %q", mode)
